@@ -101,6 +101,10 @@ func wideLetters() []*letter {
 		{Name: "x-write", Raw: req("GET", "/x/write", nil, ""), Note: "Status + Write / Writef / WriteString"},
 		{Name: "x-sendstream", Raw: req("GET", "/x/stream", nil, ""), Note: "SendStream"},
 		{Name: "x-routeurl", Raw: req("GET", "/x/routeurl", nil, ""), Note: "GetRouteURL + Render without bind map + two ViewBind calls"},
+		// facility calls that FAIL after the handler wrote per-request state
+		{Name: "x-render-fails", Raw: req("GET", "/x/fail/render", nil, ""), Note: "ViewBind + locals, then Render(name, nil) of a template the engine cannot render: 500"},
+		{Name: "x-render-fails-bind", Raw: req("GET", "/x/fail/renderbind", nil, ""), Note: "ViewBind, then Render with an explicit bind map fails"},
+		{Name: "x-json-fails", Raw: req("GET", "/x/fail/json", nil, ""), Note: "locals + ViewBind, then JSON of an unmarshallable value: error"},
 		{Name: "x-end", Raw: req("GET", "/x/end", nil, ""), Note: "End(): response flushed and connection closed by the handler"},
 		{Name: "x-drop", Raw: req("GET", "/x/drop", nil, ""), Note: "Drop(): connection closed without a response"},
 	}
@@ -296,6 +300,23 @@ func registerWide(app *fiber.App, st *runState) {
 		_ = c.ViewBind(fiber.Map{"user": "first", "url": u})
 		_ = c.ViewBind(fiber.Map{"user": "second", "err": errStr(err)})
 		return c.Render("page", nil)
+	})
+	app.Get("/x/fail/render", func(c fiber.Ctx) error {
+		st.mark(c)
+		c.Locals("session", "sess-of-failed-render")
+		_ = c.ViewBind(fiber.Map{"user": "failed-render-user", "csrf": "failed-render-token"})
+		return c.Render("fail-page", nil)
+	})
+	app.Get("/x/fail/renderbind", func(c fiber.Ctx) error {
+		st.mark(c)
+		_ = c.ViewBind(fiber.Map{"user": "failed-render-user2"})
+		return c.Render("fail-page", fiber.Map{"title": "explicit"})
+	})
+	app.Get("/x/fail/json", func(c fiber.Ctx) error {
+		st.mark(c)
+		c.Locals("session", "sess-of-failed-json")
+		_ = c.ViewBind(fiber.Map{"user": "failed-json-user"})
+		return c.JSON(make(chan int))
 	})
 	app.Get("/x/end", func(c fiber.Ctx) error {
 		st.mark(c)
